@@ -44,19 +44,19 @@ U2 = [(V, 'u2_buffer', {}), (V, 'u2_stream', {})]
 PROPS = {
     'C01': dict(
         components=[(V, 'u1_search', {}), (V, 'u1_iter', {}),
-                    sem('lf,ll', 'find,iter,spans'), sem('lf,ll', 'find,iter', families='deep')],
+                    sem('lf,ll', 'find,iter,spans'), sem('lf,ll', 'find,iter', families='deep,bytes')],
         level_text='Proof (Verus, unbounded in haystack/span): the real try_find_fwd/try_find_fwd_imp/get_match return the abstract run answer find_spec ("keep the last match, stop at dead state or span end") of any automaton satisfying the Automaton contract AC, and FindIter::next/handle_overlapping_empty_match/search implement the iterator step relation of the statement (restart at previous end, empty-match rule). Bounded stand-in: leftmost-first/longest definition vs the real builders on all small pattern lists.',
         level_note=COMMON_NOTE,
     ),
     'C02': dict(
         components=[(V, 'u1_search', {}), (V, 'u1_iter', {}),
-                    sem('std', 'find,iter,spans'), sem('std', 'find,iter', families='deep')],
+                    sem('std', 'find,iter,spans'), sem('std', 'find,iter', families='deep,bytes')],
         level_text='Proof (Verus): try_find_fwd forces earliest for standard automata (dispatcher obligation) and the loop returns at the first match state (find_spec with earliest); iterator as in C01. Bounded stand-in: earliest-end/longest/first-supplied definition vs the real builders.',
         level_note=COMMON_NOTE,
     ),
     'C03': dict(
         components=[(V, 'u1_overlap', {}),
-                    sem('std', 'ov,spans'), sem('std', 'ov', families='deep')],
+                    sem('std', 'ov,spans'), sem('std', 'ov', families='deep,bytes')],
         level_text='Proof (Verus): every call of the real try_find_overlapping_fwd(_imp) on an OverlappingState reports the head of ov_remaining(state) (abstraction function over id/at/next_match_index) and leaves its tail, or reports None forever once it is empty — for all call-history prefixes, haystacks, spans. Bounded stand-in: the listing equals all occurrences exactly once in (end, longer-first, id) order on the real builders.',
         level_note=COMMON_NOTE,
     ),
@@ -73,10 +73,9 @@ PROPS = {
         level_note=COMMON_NOTE,
     ),
     'C06': dict(
-        components=[b('packed')],
-        level='exploration',
-        level_text='Bounded stand-in only so far: every packed variant available on this CPU (Rabin-Karp, slim Teddy 128/256, fat Teddy, default) on the real SIMD code vs the leftmost definition, haystack lengths 0..=100, every span of short haystacks.',
-        level_note='No obligations are discharged for C06 yet; bounded executed contract only. SIMD intrinsics are outside every installed verifier.',
+        components=[('kani', 'pattern_raw', {}), b('packed')],
+        level_text='Proof so far only of the raw-pointer pattern comparison (Kani: is_equal_raw / is_prefix equal slice comparison and stay inside exactly-sized objects, bounded by pattern length <= 9). Bounded stand-in for everything else: every packed variant available on this CPU (Rabin-Karp, slim Teddy 128/256, fat Teddy, default) on the real SIMD code vs the leftmost definition, haystack lengths 0..=100, every span of short haystacks.',
+        level_note='Teddy window arithmetic, bucket assignment and Rabin-Karp are covered by the bounded executed contract only (labelled bounded). SIMD intrinsics are outside every installed verifier.',
     ),
     'C07': dict(
         components=U2 + [(V, 'u1_iter', {}), b('stream', aspects='find')],
@@ -105,9 +104,9 @@ PROPS = {
         level_note=COMMON_NOTE + ' The trie construction with both-case edges is a builder (bounded stand-in only).',
     ),
     'C12': dict(
-        components=[(V, 'u1_iter', {}), b('replace')],
-        level_text='Proof (Verus) of the iterator the splice loop is driven by (increasing, in-span, non-overlapping matches). Bounded stand-in: replace_all / replace_all_bytes / closure variants with early stop vs splice definition on multi-byte UTF-8 haystacks and byte patterns that split code points.',
-        level_note=COMMON_NOTE + ' The splice loop itself (u7_replace) is pending.',
+        components=[(V, 'u1_iter', {}), (V, 'u7_replace', {}), b('replace')],
+        level_text='Proof (Verus): the real try_replace_all_with_bytes never slices out of bounds or panics, terminates, hands the closure exactly (match of the iterator, haystack[m.start..m.end]) (closure precondition obligation) and is rejected only by configuration; the iterator it is driven by yields increasing in-span matches (u1_iter). Bounded stand-in: replace_all / replace_all_bytes / closure variants with early stop vs splice definition on multi-byte UTF-8 haystacks and byte patterns that split code points.',
+        level_note=COMMON_NOTE + ' Output equality with the splice definition is decided by the bounded stand-in only (the closure is opaque to the proof); the &str variants are covered by the bounded stand-in only.',
     ),
     'C13': dict(
         components=[('kani', 'gates_leaf', {})] + [(V, 'u1_search', {}), (V, 'u1_overlap', {}), (V, 'u1_iter', {}), b('cfgprod')],
@@ -120,7 +119,7 @@ PROPS = {
         level_note=COMMON_NOTE,
     ),
     'C15': dict(
-        components=[('kani', 'search_leaf', {})] + U1 + [b('packed', mode='safety'), b('pc', mode='safety')],
+        components=[('kani', 'search_leaf', {}), ('kani', 'pattern_raw', {})] + U1 + U2 + [(V, 'u7_replace', {}), b('packed', mode='safety'), b('pc', mode='safety')],
         level_text='Proof (Verus): every index, slice, subtraction, addition, unwrap/expect/assert!/debug_assert! in the extracted search functions is a discharged obligation; reported matches satisfy start <= end <= len and pid < pattern count (match_in lemmas). Bounded stand-in for the raw-pointer SIMD code: all packed variants on exactly-sized allocations for lengths 0..=100.',
         level_note=COMMON_NOTE + ' Raw-pointer code (Teddy, is_prefix_raw) is covered by bounded runs only until the Kani unit lands.',
     ),
